@@ -9,10 +9,16 @@ def errTag : J.DictErr → String
   | .keyError => "key-error"
   | .valueError => "value-error"
 
+def kvsOf? (j : Json) : Option (List (String × J)) := do
+  match ← toJ j with
+  | .obj kvs => some kvs
+  | _ => none
+
 def fnOf? (j : Json) : Option Fn := do
   match ← jArr? j with
   | [.str "add", .str f] => some (.addFinalizer f)
   | [.str "remove", .str f] => some (.removeFinalizer f)
+  | [.str "merge", q] => (kvsOf? q).map Fn.mergeWith
   | _ => none
 
 def kindOf? : String → Option ErrKind
@@ -47,11 +53,6 @@ def causeOf? (j : Json) : Option Cause := do
   let o ← jOpt? jStr? (← jField? j "operation")
   let s ← jOpt? jStr? (← jField? j "subresource")
   some ⟨r, w, o, s⟩
-
-def kvsOf? (j : Json) : Option (List (String × J)) := do
-  match ← toJ j with
-  | .obj kvs => some kvs
-  | _ => none
 
 def respJson (r : Response J) : Json :=
   Json.mkObj [
